@@ -130,6 +130,24 @@ def rule_M3(ctx: Ctx) -> None:
     ctx.judge(f, not resets, {"non_true_stores_to_visited": [X.U(r) for r in resets]}, "visited flags are only ever set, never cleared")
 
 
+def _meta_stores(stmt: ast.stmt):
+    "(key, value, object text) for `<obj>.generation_meta[key] = value` and `<obj>.generation_meta.update(key=value, ...)` / `.update({key: value})`"
+    if isinstance(stmt, ast.Assign) and isinstance(stmt.targets[0], ast.Subscript) and X.U(stmt.targets[0].value).endswith(".generation_meta") \
+            and isinstance(stmt.targets[0].slice, ast.Constant):
+        yield stmt.targets[0].slice.value, stmt.value, X.U(stmt.targets[0].value)[: -len(".generation_meta")]
+    if isinstance(stmt, ast.Expr) and isinstance(stmt.value, ast.Call) and isinstance(stmt.value.func, ast.Attribute) and stmt.value.func.attr == "update" \
+            and X.U(stmt.value.func.value).endswith(".generation_meta"):
+        obj = X.U(stmt.value.func.value)[: -len(".generation_meta")]
+        for kw in stmt.value.keywords:
+            if kw.arg:
+                yield kw.arg, kw.value, obj
+        for a in stmt.value.args:
+            if isinstance(a, ast.Dict):
+                for k_, v_ in zip(a.keys, a.values):
+                    if isinstance(k_, ast.Constant):
+                        yield k_.value, v_, obj
+
+
 def rule_M4(ctx: Ctx) -> None:
     exp = ("generation_meta['visited_cells'] = <maze>.gen_connected_component_from(start_coord) comes after the last change of the "
            "connection list, on the final maze object, from the recorded start cell")
@@ -138,10 +156,12 @@ def rule_M4(ctx: Ctx) -> None:
         body = f.node.body
         store_i = None
         store = None
+        store_val = None
+        store_obj = None
         for i, s in enumerate(body):
-            if isinstance(s, ast.Assign) and isinstance(s.targets[0], ast.Subscript) and X.U(s.targets[0].value).endswith(".generation_meta") \
-                    and isinstance(s.targets[0].slice, ast.Constant) and s.targets[0].slice.value == "visited_cells":
-                store_i, store = i, s
+            for k_, v_, o_ in _meta_stores(s):
+                if k_ == "visited_cells":
+                    store_i, store, store_val, store_obj = i, s, v_, o_
         if store is None:
             ctx.violation(f, {"visited_cells_store": None}, exp, "percolated mazes never record their component: endpoint sampling raises or uses stale cells")
             continue
@@ -153,8 +173,8 @@ def rule_M4(ctx: Ctx) -> None:
                     last_mut = max(last_mut, i)
             if isinstance(s, (ast.Assign, ast.AnnAssign)) and isinstance(getattr(s, "value", None), ast.Call) and X.U(s.value.func).endswith(("LatticeMaze", "gen_dfs")):
                 last_mut = max(last_mut, i)
-        call = store.value
-        obj = X.U(store.targets[0].value)[: -len(".generation_meta")]
+        call = store_val
+        obj = store_obj
         ok_call = isinstance(call, ast.Call) and isinstance(call.func, ast.Attribute) and call.func.attr == "gen_connected_component_from" \
             and X.U(call.func.value) == obj and len(call.args) == 1 and X.U(call.args[0]) == "start_coord"
         rets = X.returns_of(f.node)
@@ -197,10 +217,10 @@ def _writer_keys(ctx: Ctx, name: str, depth: int = 0) -> tuple[set[str], dict[st
                 keys |= k2
                 lits.update(l2)
     for s in ast.walk(f.node):
-        if isinstance(s, ast.Assign) and isinstance(s.targets[0], ast.Subscript) and X.U(s.targets[0].value).endswith(".generation_meta") \
-                and isinstance(s.targets[0].slice, ast.Constant):
-            keys.add(s.targets[0].slice.value)
-            lits.pop(s.targets[0].slice.value, None)
+        if isinstance(s, ast.stmt):
+            for k_, v_, o_ in _meta_stores(s):
+                keys.add(k_)
+                lits.pop(k_, None)
     return keys, lits
 
 
